@@ -195,6 +195,19 @@ def weird_epk(rng: Rng):
     crv = rng.pick(["P-256", "P-256", "X25519", "P-384"])
     base = K.make_ec(rng.sub("epk"), crv) if crv in rk.EC_CURVES else K.make_okp(rng.sub("epk"), crv)
     j = rk.to_jwk(base.public())
+    if rng.chance(0.35):
+        # well-typed coordinates of the wrong decoded length: one octet more than the field (with and without a zero in front),
+        # twice the field, far too long, too short, empty
+        size = len(b64.dec(j["x"]))
+        for name in rng.sample(["x", "y", "d"], rng.randrange(1, 3)):
+            if name == "y" and "y" not in j:
+                continue
+            n = rng.pick([size + 1, size + 1, size * 2, 200, size - 1, 1, 0])
+            octets = rng.bytes_(n)
+            if n and rng.chance(0.5):
+                octets = bytes([rng.pick([0, 1, 0x80, 0xff])]) + octets[1:]
+            j[name] = b64.enc(octets)
+        return j
     for _ in range(rng.randrange(1, 3)):
         j[rng.pick(JWK_EXTRA_MEMBERS)] = copy.deepcopy(rng.pick(VALUES + [["sign"], ["deriveKey", ["x"]], {"sig": True}, "sig", "enc", [["deriveKey"]]]))
     return j
